@@ -73,14 +73,18 @@ class Watch:
         self.cap_violation = None
         self.fetch_violation = None
         self.fetches = 0
+        self.cap = None  # configured capacity (set once the processor has been built)
         self.outputs_of = {}  # name of a multi-output plugin's temporary mailbox -> names of its output mailboxes
 
     def observer(self, sched, why):
         if self.cap_violation is not None:
             return
         for mb in self.boxes:
-            if not mb.lazy and len(mb._mailbox) > mb.max_messages:
-                self.cap_violation = (mb.name, len(mb._mailbox), mb.max_messages)
+            # the capacity that counts is the one the user configured (context option max_messages; the grammar sets
+            # no per-plugin override), not whatever value a mailbox object happens to carry
+            cap = min(mb.max_messages, self.cap) if self.cap is not None else mb.max_messages
+            if not mb.lazy and len(mb._mailbox) > cap:
+                self.cap_violation = (mb.name, len(mb._mailbox), cap)
 
 
 def run_once(d, n_chunks):
@@ -89,6 +93,7 @@ def run_once(d, n_chunks):
     rt = graphs.new_runtime(token)
     path = c01.scratch_dir("c13")
     W = Watch()
+    W.cap = d["cap"]
     orig_init = strax.Mailbox.__init__
     orig_add_sender = strax.Mailbox.add_sender
 
